@@ -18,6 +18,15 @@ CLAIMS = {
         "is executed on exact rationals and on i32/i64/f32/f64, recorded, and each record is recomputed by TLC from the specification. Inputs are sampled, so 'for all inputs' is "
         "reached in the Schwartz-Zippel sense, not symbolically."),
   design="§6 C01, §12"),
+ "C06": dict(
+  technique=TRACE_TECH,
+  text=("TLC model-checks on the specification that the Leibniz determinant is transpose-invariant and multiplicative, that A*adj(A)=adj(A)*A=det(A)*I and that the "
+        "cofactor inverse is two-sided (exhaustive over Z_2/Z_3 for 2x2; random tuples over Z_46337 for 2x2..4x4). Every determinant and inverse entry point of the real code "
+        "(determinant of Mat2/3/4 in both layouts, also after transposition and after layout conversion; inverted/invert, inverted_affine_transform_no_scale, "
+        "inverted_affine_transform and their in-place forms in both layouts, on dense, sparse, rigid and translation*rotation*scale matrices built from exact rational rotations "
+        "with scales from 2^-19 to 8) is executed on exact rationals (and i32/i64/f32/f64 for determinants), recorded, and TLC recomputes each result from the specification and "
+        "multiplies the recorded inverse back to the identity on both sides. Inputs are sampled, not symbolic."),
+  design="§6 C06, §12"),
  "C17": dict(
   technique="TLA+ spec (VekOps/VekOpsAlgo) model-checked by TLC exhaustively per bit width; TLC-emitted result tables replayed into the real code (spec->code conformance)",
   text=("TLC checks exhaustively (every (x,lo,hi) of 5-bit types in quick, 8-bit in thorough) that the declarative operators satisfy the range laws of the "
